@@ -152,9 +152,9 @@ class DocGen:
         r.shuffle(attrs)
         return name, attrs
 
-    def open_tag(self, name, attrs):
+    def open_tag(self, name, attrs, single_line=False):
         r = self.rng
-        sep = " " if r.random() < 0.85 else r.choice(["  ", "\n", "\n  "])
+        sep = " " if (single_line or r.random() < 0.85) else r.choice(["  ", "\n", "\n  "])
         pad = "" if (self.ds[-1:] != " " and r.random() < 0.5) else " "
         pad2 = "" if r.random() < 0.5 else " "
         if pad == "" and (self.ds + name).startswith(self.ds + self.ds[:1]) and False:
@@ -216,7 +216,7 @@ class DocGen:
                             k2 = self.pick_kind(kinds)
                             self.stats["inline"] += 1
                             n2, a2 = self.tag_body(k2, False)
-                            out.append(ind + self.unit + self.word() + "(" + self.open_tag(n2, a2) + self.word() + self.close_tag(n2) + ");")
+                            out.append(ind + self.unit + self.word() + "(" + self.open_tag(n2, a2, True) + self.word() + self.close_tag(n2) + ");")
                         else:
                             out.append(self.code_line(ind + self.unit))
                         out.append(ind + self.close_tag(name))
